@@ -5,6 +5,7 @@ import jwsgen as G
 import jwegen as E
 
 ID = "C14"
+CORPUS_FIRST = True
 BUILDS = ["asan", "plain"]
 RULE = ("boundary grids on the implementation and the model, each line under a watchdog: PBES2 p2c in {-2^63, "
         "-2^32-1, -2^32+1000, -2^32+32768, -2^31-1, -2^31, -1, 0, 1, 999, 1000, 4096, 32767, 32768, 32769, 65536, "
